@@ -254,7 +254,7 @@ def run_c03(tier, seed, replay=None):
         body = [["fresh", ["x", "y"], ["neq", rnd.choice(["q", "r", ["list", "q", "r"]]), other]] +
                 ([["eq", "x", "r"]] if rnd.random() < 0.5 else [])]
         cases.append(mk_case([], ["q", "r"], body))
-    return pcheck.run_check("C03", tier, seed, cases, "exact", oracle_c03, cone=["Proofs/ReifyProofs.vo", "Proofs/EngineProofs.vo"], replay=replay,
+    return pcheck.run_check("C03", tier, seed, cases, "exact", oracle_c03, cone=["Proofs/ReifyProofs.vo", "Proofs/EngineProofs.vo", "Proofs/ScopeReify.vo"], replay=replay,
         rule="programs of ==, !=, fresh, conde over lists and four compound types with 1-3 query variables sharing free variables, plus "
              "constraints on hidden variables and on variables nested in compounds/lists; every answer is checked: only reified variables in "
              "terms, constraints mention only variables of the answer, constraints() per query variable; non-trivial = at least one answer",
